@@ -192,6 +192,28 @@ def generate(rng, tier):
             h.append(o)
             kinds = kinds + (kind_after(o),)
         add(h, "random-small")
+    # 3b. a value with slack (duplicates in the constructor, an overlapping union, inserts) extended twice in different
+    #     ways: every way of building the base x every ordered pair of extensions (an extension that appends in place
+    #     where it sees spare capacity makes the second extension rewrite the first one's result)
+    bases = [[("OpNewSet", [1, 1, 3])], [("OpNewSet", [1, 2]), ("OpNewSet", [2, 3]), ("OpUnion", 2, 3)],
+             [("OpNewSet", [1, 3]), ("OpUnion", 2, 2)], [("OpNewSet", [3, 1, 2, 2, 1])],
+             [("OpNewSet", [1]), ("OpInsert", 2, 2), ("OpInsert", 3, 3)], [("OpNewSet", [0, 1, 2]), ("OpNewSet", [1, 2, 3]), ("OpUnion", 3, 2)]]
+    for b in bases:
+        base = 1 + len(b)                       # index of the base value
+        exts = [("S", [5]), ("S", [7]), ("S", [6, 8]), ("I", 4), ("I", 9), ("S", [3, 5]), ("I", 0)]
+        for e1 in exts:
+            for e2 in exts:
+                if e1 == e2:
+                    continue
+                h = list(b)
+                for e in (e1, e2):
+                    if e[0] == "S":
+                        h.append(("OpNewSet", e[1]))
+                        h.append(("OpUnion", base, 1 + len(h)))
+                    else:
+                        h.append(("OpInsert", base, e[1]))
+                h.append(("OpEachS", base))
+                add(h, "slack-then-two-extensions", [0, 1, 2, 3, 5])
     # 4. random long histories over a larger domain, reads included
     dom = list(range(-2, 10))
     for _ in range(120 if quick else 600):
